@@ -19,6 +19,7 @@ LABEL_RE = re.compile(r"//@\s*([A-Za-z0-9_.,\-]+)")
 
 SEMANTIC = [
     ("postcondition not satisfied", "post"),
+    ("unable to prove post-condition of closure", "post"),
     ("precondition not satisfied", "pre"),
     ("invariant not satisfied", "inv"),
     ("assertion failed", "assert"),
